@@ -747,3 +747,7 @@ def run(ctx):
 
     ctx.section(_sec_inputmut)
 
+    from . import c10 as _c10_state
+
+    ctx.section(_c10_state.state_slice, ctx, 'C05.state', ['cdd.sqlalchemy.emit.sqlalchemy', 'cdd.sqlalchemy.emit.sqlalchemy_table', 'cdd.sqlalchemy.emit.sqlalchemy_hybrid', 'cdd.sqlalchemy.parse.sqlalchemy', 'cdd.sqlalchemy.parse.sqlalchemy_table', 'cdd.sqlalchemy.parse.sqlalchemy_hybrid'], 5)
+
